@@ -3937,7 +3937,11 @@ func (a *Association) popPendingDataChunksToSend( //nolint:cyclop,gocognit
 		}
 	}
 
-	if a.blockWrite && len(chunks) > 0 && a.pendingQueue.size() == 0 {
+	// The queue may also become empty in a pass that sends nothing: the last DATA
+	// chunk went out as a window probe and only the end-of-stream marker of a
+	// closed stream was left, which is dropped above. Writers blocked on
+	// writePending would then wait forever.
+	if a.blockWrite && (len(chunks) > 0 || a.writePending) && a.pendingQueue.size() == 0 {
 		a.log.Tracef("[%s] all pending data have been sent, notify writable", a.name)
 		a.notifyBlockWritable()
 	}
